@@ -507,6 +507,7 @@ func (e *Env) RDiscovery() {
 		}
 		return true
 	})
+	e.resolvedDomain(c, fd, lit, identArm)
 	undo := c.InstallReachingIn(lit.Body)
 	defer undo()
 	// stores of an arm: target text → path condition inside the arm (several stores to one target: or)
@@ -1120,4 +1121,87 @@ func (e *Env) goastImports() {
 	e.Run.Check("R-RESOLVER", "goast.imports: two imports under one name are refused", e.Prog.Pos(arm.Pos()), dup, "no `outer = fmt.Errorf(…)` under the presence test of imports[name]")
 	e.Run.Check("R-RESOLVER", "goast.imports: an unnamed import takes its name from the package-name resolver, whose error is recorded", e.Prog.Pos(arm.Pos()), res,
 		"no `outer = <error of "+RP+">` under that error being non-nil")
+}
+
+// resolvedDomain: package names are asked of the resolver exactly for the packages that some
+// identifier refers to. The argument of every ResolvePackage call in updateImports is the key of a
+// range over a set S, and every store into S is the scan's *dst.Ident arm storing S[n.Path]: a
+// set that also receives the cgo pseudo-import or blank imports would ask the resolver for "C"
+// (which no package-name resolver knows), so that an unedited cgo file no longer restores.
+func (e *Env) resolvedDomain(c *schema.Ctx, fd *ast.FuncDecl, lit *ast.FuncLit, identArm *ast.CaseClause) {
+	info := c.Info
+	nCalls := 0
+	var stack []ast.Node
+	ast.Inspect(fd.Body, func(n ast.Node) bool {
+		if n == nil {
+			stack = stack[:len(stack)-1]
+			return true
+		}
+		stack = append(stack, n)
+		call, ok := n.(*ast.CallExpr)
+		if !ok || len(call.Args) != 1 {
+			return true
+		}
+		fn := c.Callee(call)
+		if fn == nil || fn.Name() != "ResolvePackage" {
+			return true
+		}
+		nCalls++
+		key := "updateImports: the package-name resolver is asked only about packages that identifiers refer to"
+		arg, isID := call.Args[0].(*ast.Ident)
+		var set types.Object
+		if isID {
+			for i := len(stack) - 1; i >= 0 && set == nil; i-- {
+				rs, isRange := stack[i].(*ast.RangeStmt)
+				if !isRange {
+					continue
+				}
+				for _, kv := range []ast.Expr{rs.Key, rs.Value} {
+					if kid, ok := kv.(*ast.Ident); ok && info.Defs[kid] != nil && info.Defs[kid] == info.Uses[arg] {
+						x := ast.Unparen(rs.X)
+						if cl, isCall := x.(*ast.CallExpr); isCall && len(cl.Args) == 1 {
+							x = ast.Unparen(cl.Args[0]) // sortedKeys(S)
+						}
+						if sid, ok := x.(*ast.Ident); ok {
+							set = info.Uses[sid]
+						}
+					}
+				}
+			}
+		}
+		if set == nil {
+			e.Run.Check("R-DISC", key, e.Prog.Pos(call.Pos()), false, "the argument `"+c.ExprStr(call.Args[0])+"` is not the element of a loop over a local set")
+			return true
+		}
+		// every store into the set
+		good, nStores := true, 0
+		why := ""
+		ast.Inspect(fd.Body, func(m ast.Node) bool {
+			as, ok := m.(*ast.AssignStmt)
+			if !ok {
+				return true
+			}
+			for _, l := range as.Lhs {
+				ix, ok := l.(*ast.IndexExpr)
+				if !ok {
+					continue
+				}
+				bid, ok := ix.X.(*ast.Ident)
+				if !ok || info.Uses[bid] != set {
+					continue
+				}
+				nStores++
+				inArm := identArm != nil && identArm.Pos() <= as.Pos() && as.End() <= identArm.End()
+				if !inArm || c.ExprStr(ix.Index) != "n.Path" {
+					good = false
+					why = fmt.Sprintf("%s[%s] is also stored at %s", set.Name(), c.ExprStr(ix.Index), e.Prog.Pos(as.Pos()))
+				}
+			}
+			return true
+		})
+		e.Run.Check("R-DISC", key, e.Prog.Pos(call.Pos()), good && nStores > 0,
+			"the resolver is asked for every key of `"+set.Name()+"`, which holds more than the paths of identifiers ("+why+"): the cgo pseudo-import \"C\" and blank imports have no resolvable package name, so restoring an unedited file fails with a strict resolver")
+		return true
+	})
+	e.Run.Floor("R-DISC", "ResolvePackage calls in updateImports", nCalls, 1)
 }
